@@ -33,6 +33,23 @@ Strengthening pass (coverage-gap audit):
    tables, get_dofs / DofsView algebra, project, solver_eigen_scipy, solve with pooled solver and x=, I=,
    condense with matrix rhs / I= / CSC / complex).
 
+Round 4 (a seeded `sym_grad` that symmetrised basis.basis[j][0].grad in place went unnoticed: the elasticity matrix
+stays bit-identical, the NEXT user of the basis gets wrong gradients):
+ * forms written with skfem.helpers (family helper-programs, op `hform`): generated integrands apply EVERY public
+   function of skfem.helpers (the catalogue is compared with the module: a new helper without a form makes the run
+   inconclusive) to the stored trial / test functions of vector, mixed (vector x scalar), H(div), H(curl), scalar
+   and globally defined elements (incl. subclasses that tabulate third / fourth derivatives) on cell, boundary-facet
+   and interior-facet bases, to coefficient fields the caller obtained from interpolate() and KEEPS across steps, to
+   a matrix field handed over as a plain array, and to the w.x / w.n arrays the basis caches; the library's model forms
+   (linear_elasticity, vector_laplace, laplace, mass, unit_load, curluv, rot, vrot) are in the catalogue too.  The
+   integrands contract tensors with asymmetric weights, so the unsymmetric part of a gradient matters.  Around every
+   assembly all arrays of the basis (basis functions with all derivative fields, dx, X, W, DOF tables, cached
+   coordinates / parameters / normals, mapping arrays), of its element, mesh and of the coefficient fields are
+   checksummed; the same pooled basis is used next for another helper form or for interpolate() (all fields of the
+   result compared with the fresh replay / fresh process); read-only in every second program.
+ * composite-bases: all arrays of the two component bases and of their elements are operands (not only dx and the
+   DOF tables).
+
 Oracle pitfall recorded while building this: np.asarray(None) (edges of a 2-D mesh) is an object array whose
 bytes are addresses: equal within a process, different across processes; such results are compared by repr.
 """
@@ -57,7 +74,9 @@ RULE = ("random programs of 30 (quick) / 120 (thorough) steps drawn from an oper
         "size and per-call keywords, mesh transformations / tagging / refinement / algebra / conversion / save-load, "
         "boundary-condition helpers, pooled Form objects reading w.x/w.h/w.n/keywords on cell and facet bases, facet maps "
         "G/detDG/normals, facet bases, get_dofs and DofsView algebra, projection, derived meshes kept in the pool incl. "
-        "second-order/DG/wedge, caller buffers refilled in place) over a shared object pool, each step compared with a "
+        "second-order/DG/wedge, caller buffers refilled in place, generated forms applying every function of skfem.helpers "
+        "to stored basis functions / kept coefficient fields / cached w.x, w.n of vector, mixed, H(div), H(curl), scalar and "
+        "global elements followed by another form or interpolate on the same basis) over a shared object pool, each step compared with a "
         "fresh replay and, for a sample, with a replay in a process that executed nothing else; focused programs over "
         "1-3 meshes; distinct key = (operation, cache touched, warm/cold); "
         "non-trivial iff the pooled object had been used before with different arguments")
@@ -99,7 +118,16 @@ REQUIRED_REACH = ["warm:element-on-second-mesh", "warm:global-element-on-second-
                   "catalogue:mesh:morphed", "catalogue:mesh:add", "catalogue:mesh:add-touching", "catalogue:mesh:matmul", "catalogue:mesh:mul", "catalogue:mesh:to_simplex", "catalogue:mesh:remove_duplicate_nodes", "catalogue:mesh:remove_unused_nodes", "catalogue:mesh:trace", "catalogue:mesh:with_defaults", "catalogue:mesh:save-load", "catalogue:mesh:save-load-npz", "catalogue:mesh:from_dict", "catalogue:mesh:copy", "catalogue:mesh:edges", "catalogue:mesh:f2e", "catalogue:mesh:boundary_edges", "catalogue:mesh:p2f", "catalogue:mesh:p2e", "catalogue:mesh:satisfying", "catalogue:bc:solve-pooled-direct", "catalogue:bc:solve-pooled-pcg", "catalogue:bc:condense-matrix", "catalogue:bc:condense-I", "catalogue:bc:condense-csc", "catalogue:bc:condense-complex", "catalogue:bc:enforce-matrix", "catalogue:bc:solve-eigen-expand", "catalogue:dofs", "catalogue:project", "eig:solver_eigen_scipy", "warm:same-buffer-refilled-in-place:lbasis", "warm:same-buffer-refilled-in-place:mapping",
                   "operand:pooled-basis-arrays", "caller-array:quadrature", "caller-array:X", "caller-array:x,y",
                   "caller-array:adaptive", "caller-array:restrict", "caller-array:remove_elements",
-                  "caller-array:with_boundaries-array", "caller-array:with_subdomains-array"]
+                  "caller-array:with_boundaries-array", "caller-array:with_subdomains-array",
+                  "operand:composite-component-basis-arrays",
+                  # forms written with skfem.helpers (family helper-programs); the helper:* points are appended below
+                  "helper-catalogue-covers-skfem.helpers", "operand:coefficient-field-arrays",
+                  "caller-array:coefficient-matrix-field", "fresh-process-reference:hform", "hform:on-facet-basis",
+                  "warm:other-helper-form-after-helper-form-on-the-same-basis",
+                  "warm:interpolate-after-helper-form-on-the-same-basis",
+                  "hform:bil-unary", "hform:bil-binary", "hform:lin", "hform:fun", "hform:interp", "hform:model",
+                  "hform:coef-F", "hform:jump", "hform:class:vec", "hform:class:mixed", "hform:class:scalar",
+                  "hform:class:hdiv", "hform:class:hcurl", "hform:class:global"]
 
 
 # ------------------------------------------------------------------ helpers
@@ -371,6 +399,7 @@ class Env:
         self._form = {}
         self._elem_static = {}
         self._buffers = {}
+        self._coef = {}
         self.used = {}      # object key -> set of argument fingerprints seen (pool only)
 
     def mesh(self, mid):
@@ -407,7 +436,7 @@ class Env:
     def elem(self, name):
         if self.pooled and name in self._elem:
             return self._elem[name]
-        e = EL.by_name(name).make()
+        e = make_elem(name)
         if self.pooled:
             self._elem[name] = e
             # which arrays define the element is decided now, right after construction (see element_static_arrays)
@@ -445,6 +474,33 @@ class Env:
                 freeze(deep_arrays(b))
             self._basis[key] = b
         return b
+
+    def ibasis(self, mid, ename, side):
+        """InteriorFacetBasis (one side) of a pooled mesh and a pooled element object."""
+        import skfem
+        key = ("interior", mid, ename, side)
+        if self.pooled and key in self._basis:
+            return self._basis[key]
+        b = skfem.InteriorFacetBasis(self.mesh(mid), self.elem(ename), side=side)
+        if self.pooled:
+            if self.readonly:
+                freeze(deep_arrays(b))
+            self._basis[key] = b
+        return b
+
+    def coef(self, a):
+        """A coefficient field (DiscreteField, or a tuple of them for a composite element) the caller obtained from
+        interpolate() and KEEPS: the same object is handed to later assemblies."""
+        key = (a["where"], a["mid"], a["ename"], a["kseed"])
+        if self.pooled and key in self._coef:
+            return self._coef[key]
+        b = _hbasis(self, a)
+        k = b.interpolate(np.random.default_rng(300 + a["kseed"]).integers(-8, 9, size=b.N) / 8)
+        if self.pooled:
+            if self.readonly:
+                freeze(deep_arrays(k, "k"))
+            self._coef[key] = k
+        return k
 
     def sub_basis(self, mid, ename):
         """The pooled cell basis restricted to the subdomain 's' of the mesh (its own long-lived object)."""
@@ -1114,7 +1170,13 @@ def _forms():
         "lin-n": lambda: skfem.LinearForm(lambda v, w: _sc(v) * (w.n[0] + 0.5 * w.x[0] * w.n[-1])),
         "fun-n": lambda: skfem.Functional(lambda w: w.n[0] * w.x[0] + w.n[-1] * w.x[-1] + w.h),
         "fun-nk": lambda: skfem.Functional(lambda w: (w.n[0] + 2.0) * _sc(w["k"])),
+        "model:linear_elasticity": lambda: _linear_elasticity(),
     }
+
+
+def _linear_elasticity():
+    from skfem.models.elasticity import lame_parameters, linear_elasticity
+    return linear_elasticity(*lame_parameters(8.0, 0.25))
 
 
 class _Forms(dict):
@@ -1381,8 +1443,409 @@ def run_project(env, a):
         ("project:" + a["what"], "basis", warm)
 
 
+# ---- forms written with the helpers of skfem.helpers on vector / H(div) / H(curl) / global / mixed bases
+# The trial and test functions a form is handed ARE the arrays stored in basis.basis[j][k] (value, grad, div, curl,
+# hess, grad3...) and a DiscreteField passed as a keyword is handed over as it is: a helper that computes "without
+# temporaries" corrupts its caller's operands while the assembled tensor may stay bit-identical (symmetrisation is
+# idempotent).  Every public function of skfem.helpers is applied (a) to the stored basis functions and (b) to a
+# coefficient field the caller keeps, inside generated integrands; the arrays of the basis and of the coefficient are
+# checksummed around EVERY assembly, and the same pooled basis is used next for another form or for interpolate().
+DIM = {"line": 1, "tri": 2, "quad": 2, "tet": 3, "hex": 3, "wedge": 3}
+HELPER_ELEMS = {
+    "vec": {"tri": ["Vector(ElementTriP1)", "Vector(ElementTriP2)"], "quad": ["Vector(ElementQuad1)", "Vector(ElementQuad2)"],
+            "tet": ["Vector(ElementTetP1)"], "hex": ["Vector(ElementHex1)"], "wedge": ["Vector(ElementWedge1)"]},
+    "scalar": {"line": ["ElementLineP2"], "tri": ["ElementTriP2"], "quad": ["ElementQuad2"], "tet": ["ElementTetP1"],
+               "hex": ["ElementHex1"]},
+    "hdiv": {"tri": ["ElementTriRT1", "ElementTriBDM1"], "quad": ["ElementQuadRT1"], "tet": ["ElementTetRT1"],
+             "hex": ["ElementHexRT1"]},
+    "hcurl": {"tri": ["ElementTriN1"], "quad": ["ElementQuadN1"], "tet": ["ElementTetN1"]},
+    "global": {"line": ["ElementLineHermite", "Derivatives4(ElementLineHermite)"],
+               "tri": ["ElementTriMorley", "Derivatives4(ElementTri15ParamPlate)"],
+               "quad": ["ElementQuadBFS", "Derivatives4(ElementQuad2G)"]},
+    "mixed": {"tri": ["Composite(Vector(ElementTriP2),ElementTriP1)"], "quad": ["Composite(Vector(ElementQuad2),ElementQuad1)"],
+              "tet": ["Composite(Vector(ElementTetP1),ElementTetP1)"]},
+}
+HELPER_CLS_WEIGHT = {"vec": 5, "mixed": 2, "scalar": 1, "hdiv": 1, "hcurl": 1, "global": 2}
+ORDER1 = ("vec", "hdiv", "hcurl")
+WITH_GRAD = ("vec", "scalar", "global")
+_D4 = {}
+
+
+def make_elem(name):
+    """Element objects by name: registry names, Vector(...), Composite(...,...) and Derivatives4(<global element>)
+    (a subclass that also tabulates the third and fourth derivatives, the documented way to obtain grad3/grad4)."""
+    import skfem
+    if name.startswith("Vector(") and name.endswith(")"):
+        return skfem.ElementVector(make_elem(name[7:-1]))
+    if name.startswith("Composite(") and name.endswith(")"):
+        parts, depth, cur = [], 0, ""
+        for ch in name[10:-1]:
+            if ch == "," and depth == 0:
+                parts.append(cur)
+                cur = ""
+                continue
+            depth += (ch == "(") - (ch == ")")
+            cur += ch
+        parts.append(cur)
+        return skfem.ElementComposite(*[make_elem(q) for q in parts])
+    if name.startswith("Derivatives4(") and name.endswith(")"):
+        base = type(EL.by_name(name[13:-1]).make())
+        if base not in _D4:
+            _D4[base] = type(base.__name__ + "Derivatives4", (base,), {"derivatives": 4})
+        return _D4[base]()
+    return EL.by_name(name).make()
+
+
+def S(x):
+    """A fixed ASYMMETRIC contraction of the leading (tensor) axes to one value per quadrature point (the weights of
+    the (i, j) and (j, i) entries differ, so an integrand sees the unsymmetric part of a gradient).  Never writes."""
+    x = np.asarray(x)
+    if x.ndim <= 2:
+        return x
+    y = x.reshape((-1,) + x.shape[-2:])
+    c = 1.0 + 0.25 * np.arange(y.shape[0])
+    return (c[:, None, None] * y).sum(axis=0)
+
+
+# expression name -> (predicate(field class, dim, element name), helpers(field class), evaluation(H, a, class, dim))
+UNARY = {
+    "id": (lambda c, d, e: True, lambda c: (), lambda H, a, c, d: a),
+    "grad": (lambda c, d, e: c in WITH_GRAD, lambda c: ("grad",), lambda H, a, c, d: H.grad(a)),
+    "d": (lambda c, d, e: True, lambda c: ("d",), lambda H, a, c, d: H.d(a)),
+    "div": (lambda c, d, e: c in ("vec", "hdiv"), lambda c: ("div",), lambda H, a, c, d: H.div(a)),
+    "curl": (lambda c, d, e: c in ("vec", "hcurl") or (c in ("scalar", "global") and d == 2), lambda c: ("curl",),
+             lambda H, a, c, d: H.curl(a)),
+    "sym_grad": (lambda c, d, e: c == "vec", lambda c: ("sym_grad",), lambda H, a, c, d: H.sym_grad(a)),
+    "transpose": (lambda c, d, e: c in ("vec", "global"), lambda c: ("transpose", "grad" if c == "vec" else "dd"),
+                  lambda H, a, c, d: H.transpose(H.grad(a) if c == "vec" else H.dd(a))),
+    "trace": (lambda c, d, e: c in ("vec", "global"), lambda c: ("trace", "grad" if c == "vec" else "dd"),
+              lambda H, a, c, d: H.trace(H.grad(a) if c == "vec" else H.dd(a))),
+    "det": (lambda c, d, e: c in ("vec", "global") and d in (2, 3), lambda c: ("det", "grad" if c == "vec" else "dd"),
+            lambda H, a, c, d: H.det(H.grad(a) if c == "vec" else H.dd(a))),
+    "eye": (lambda c, d, e: True, lambda c: ("eye",), lambda H, a, c, d: H.eye(a, d)),
+    "identity": (lambda c, d, e: True, lambda c: ("identity",),
+                 lambda H, a, c, d: H.identity(a, None if np.ndim(a) > 2 else d) * S(a)),
+    "dd": (lambda c, d, e: c == "global", lambda c: ("dd",), lambda H, a, c, d: H.dd(a)),
+    "ddd": (lambda c, d, e: c == "global" and e.startswith("Derivatives4("), lambda c: ("ddd",), lambda H, a, c, d: H.ddd(a)),
+    "dddd": (lambda c, d, e: c == "global" and e.startswith("Derivatives4("), lambda c: ("dddd",),
+             lambda H, a, c, d: H.dddd(a)),
+}
+
+
+def _g(H, a, c):
+    """The field itself (vector valued classes) or its gradient (scalar valued classes): an order-1 tensor."""
+    return a if c in ORDER1 else H.grad(a)
+
+
+def _dddot(H, a, b, c, d):
+    if c == "global":
+        return H.dddot(H.ddd(a), H.ddd(b))
+    return H.dddot(H.prod(a, b, a), H.prod(b, a, b))
+
+
+def _mul(H, a, b, c, d):
+    if c == "vec":
+        return H.mul(H.grad(a), b)
+    if c == "global":
+        return H.mul(H.dd(a), H.grad(b))
+    return H.mul(H.prod(_g(H, a, c), _g(H, b, c)), _g(H, a, c))
+
+
+BINARY = {
+    "dot": (lambda c, d, e: True, lambda c: ("dot",) + (() if c in ORDER1 else ("grad",)),
+            lambda H, a, b, c, d: H.dot(_g(H, a, c), _g(H, b, c))),
+    "ddot": (lambda c, d, e: c in ("vec", "global"), lambda c: ("ddot", "grad" if c == "vec" else "dd"),
+             lambda H, a, b, c, d: H.ddot(H.grad(a), H.grad(b)) if c == "vec" else H.ddot(H.dd(a), H.dd(b))),
+    "dddot": (lambda c, d, e: c in ORDER1 or (c == "global" and e.startswith("Derivatives4(")),
+              lambda c: ("dddot", "ddd") if c == "global" else ("dddot", "prod"), _dddot),
+    "prod": (lambda c, d, e: True, lambda c: ("prod",) + (() if c in ORDER1 else ("grad",)),
+             lambda H, a, b, c, d: H.prod(_g(H, a, c), _g(H, b, c))),
+    "mul": (lambda c, d, e: True, lambda c: ("mul",) + {"vec": ("grad",), "global": ("dd", "grad"), "scalar": ("prod", "grad")}.get(c, ("prod",)),
+            _mul),
+    "cross": (lambda c, d, e: d in (2, 3), lambda c: ("cross",) + (() if c in ORDER1 else ("grad",)),
+              lambda H, a, b, c, d: H.cross(_g(H, a, c), _g(H, b, c))),
+    "inner": (lambda c, d, e: True, lambda c: ("inner",) + (("grad",) if c in WITH_GRAD else ()),
+              lambda H, a, b, c, d: H.inner(a, b) + (H.inner(H.grad(a), H.grad(b)) if c in WITH_GRAD else 0.0)),
+}
+# every public function of skfem.helpers -> the operands it is applied to in the catalogue
+HELPER_TARGETS = {h: ("basis-function", "coefficient") for h in
+                  ("grad", "d", "div", "curl", "sym_grad", "transpose", "trace", "det", "eye", "identity", "dd", "ddd", "dddd",
+                   "dot", "ddot", "dddot", "prod", "mul", "cross", "inner")}
+for _h in ("dot", "prod", "mul", "cross", "inner", "eye", "identity"):
+    # ... and to the arrays the basis hands to every form on its own account (w.x, w.n: cached on the basis object)
+    HELPER_TARGETS[_h] += ("default-parameter",)
+HELPER_TARGETS["inv"] = ("coefficient",)          # (the gradient of ONE basis function of a vector element is singular)
+HELPER_TARGETS["jump"] = ("basis-function",)
+HELPER_REACH = [f"helper:{h}:{t}" for h, ts in sorted(HELPER_TARGETS.items()) for t in ts]
+REQUIRED_REACH += HELPER_REACH
+MODELS = {"vec": ["linear_elasticity", "vector_laplace"], "vec3": ["curluv", "rot", "vrot"], "scalar": ["laplace", "mass", "unit_load"]}
+MODEL_HELPERS = {"linear_elasticity": ("sym_grad", "ddot", "trace", "eye"), "vector_laplace": ("grad", "ddot"),
+                 "curluv": ("curl", "dot"), "rot": ("curl", "dot"), "vrot": ("dot",), "laplace": ("grad", "dot"), "mass": (),
+                 "unit_load": ()}
+
+
+def _geometry_factor(H, name, w, dim, facet):
+    """1 + (a helper applied to the global coordinates / normals the basis keeps)/8."""
+    x, y = w["x"], (w["n"] if facet else w["x"])
+    if name == "dot":
+        r = H.dot(x, y)
+    elif name == "prod":
+        r = S(H.prod(x, y))
+    elif name == "mul":
+        r = S(H.mul(H.prod(x, y), x))
+    elif name == "cross":
+        r = S(H.cross(y, x))
+    elif name == "inner":
+        r = H.inner(x, y)
+    elif name == "eye":
+        r = S(H.eye(y, dim))
+    else:
+        r = S(H.identity(y)) * S(x)
+    return 1.0 + 0.125 * r
+
+
+def _least_used(rng, specs, names, target):
+    """Expression choice that covers the catalogue: among `names` the one used least often so far in this program
+    for this kind of operand (ties broken at random)."""
+    cnt = specs.__dict__.setdefault("hform_count", {})
+    lo = min(cnt.get((n, target), 0) for n in names)
+    name = str(rng.choice([n for n in names if cnt.get((n, target), 0) == lo]))
+    cnt[(name, target)] = cnt.get((name, target), 0) + 1
+    return name
+
+
+def op_hform(rng, specs):
+    classes = getattr(specs, "hform_classes", None) or list(HELPER_ELEMS)
+    pairs, wts = [], []
+    for mid, s in specs.meshes.items():
+        if s.get("order2") or s.get("dg"):
+            continue
+        for cls in classes:
+            if s["kind"] in HELPER_ELEMS[cls] and bool(s.get("unit")) == (cls == "global"):
+                pairs.append((mid, cls))
+                wts.append(HELPER_CLS_WEIGHT[cls])
+    if not pairs:
+        raise ValueError("no mesh for a helper form")
+    mid, cls = pairs[int(rng.choice(len(pairs), p=np.array(wts, dtype=float) / sum(wts)))]
+    kind = specs.meshes[mid]["kind"]
+    dim = DIM[kind]
+    ename = _least_used(rng, specs, HELPER_ELEMS[cls][kind], "element:" + kind)
+    facets = kind in ("tri", "quad", "tet", "hex")
+    where = "facet" if cls in ("vec", "scalar") and facets and rng.random() < 0.25 else "cell"
+    whats = ["bil-unary"] * 4 + ["bil-binary"] * 3 + ["lin", "fun", "interp", "interp"]
+    if cls == "vec":
+        whats += ["coef-F", "model"]
+    if cls == "scalar":
+        whats += ["model"]
+    if cls in ("vec", "scalar") and facets and where == "cell":
+        whats += ["jump"]
+    d4 = ename.startswith("Derivatives4(")
+    if d4:
+        whats = ["bil-unary"] * 4 + ["bil-binary"] * 2 + ["lin"] * 2 + ["fun"] * 2 + ["interp"]
+    what = str(rng.choice(whats))
+    fc = "vec" if cls == "mixed" else cls
+    un = [n for n, (ok, _, _) in UNARY.items() if ok(fc, dim, ename)]
+    unk = un
+    if d4:                                                       # what only these elements can be asked for
+        un = ["dd", "ddd", "dddd", "transpose", "trace"] if rng.random() < 0.5 else un
+        unk = ["dd", "ddd", "dddd"] if rng.random() < 0.75 else unk
+    bn = [n for n, (ok, _, _) in BINARY.items() if ok(fc, dim, ename)]
+    sc = [n for n, (ok, _, _) in UNARY.items() if ok("scalar", dim, "")]
+    e = {}
+    coef = bool(rng.random() < 0.6) or d4
+    if what == "bil-unary":
+        e = dict(u=_least_used(rng, specs, un, "basis-function"), v=_least_used(rng, specs, un, "basis-function"))
+        if coef:
+            e["k"] = _least_used(rng, specs, unk, "coefficient")
+        if cls == "mixed":
+            e.update(p=str(rng.choice(sc)), q=str(rng.choice(sc)))
+    elif what == "bil-binary":
+        e = dict(b=_least_used(rng, specs, bn, "basis-function"))
+        if coef:
+            e.update(bk=_least_used(rng, specs, bn, "coefficient"), v=_least_used(rng, specs, un, "basis-function"))
+    elif what == "lin":
+        e = dict(v=_least_used(rng, specs, un, "basis-function"), k=_least_used(rng, specs, unk, "coefficient"),
+                 bk=_least_used(rng, specs, bn, "coefficient"))
+    elif what == "fun":
+        e = dict(k=_least_used(rng, specs, unk, "coefficient"), bk=_least_used(rng, specs, bn, "coefficient"))
+    elif what == "model":
+        e = dict(model=str(rng.choice(MODELS[cls] + (MODELS["vec3"] if cls == "vec" and dim == 3 else []))))
+    elif what == "coef-F":
+        e = dict(form=str(rng.choice(["bil", "lin"])))
+    if what in ("bil-unary", "bil-binary", "lin", "fun") and rng.random() < 0.5:
+        e["g"] = _least_used(rng, specs, ["dot", "prod", "mul", "inner", "eye", "identity"] + (["cross"] if dim > 1 else []),
+                             "default-parameter")
+    sig = what + ":" + cls + ":" + ",".join(f"{k_}={v_}" for k_, v_ in sorted(e.items()))
+    return dict(mid=mid, ename=ename, cls=cls, dim=dim, where=where, what=what, expr=e, sig=sig, kseed=int(rng.integers(2)),
+                yseed=int(rng.integers(3)))
+
+
+def _hbasis(env, a):
+    return env.fbasis(a["mid"], a["ename"]) if a["where"] == "facet" else env.basis(a["mid"], a["ename"])
+
+
+def _needs_coef(a):
+    e = a["expr"]
+    return a["what"] in ("lin", "fun", "coef-F") or "k" in e or "bk" in e or e.get("model") in ("rot", "vrot")
+
+
+def pre_hform(env, a):
+    if a["what"] == "jump":
+        return env.basis_operands(env.ibasis(a["mid"], a["ename"], 0)) + env.basis_operands(env.ibasis(a["mid"], a["ename"], 1))
+    objs = env.basis_operands(_hbasis(env, a))
+    if _needs_coef(a):
+        # the coefficient field is an object the CALLER keeps (and reuses in later steps): its arrays are operands
+        objs.append(Held(deep_arrays(env.coef(a), "k")))
+    return objs
+
+
+def _helper_integrand(a):
+    """The integrand of a generated form: a pure function of the step arguments (rebuilt in the fresh process)."""
+    import skfem.helpers as H
+    cls, dim, e, what = a["cls"], a["dim"], a["expr"], a["what"]
+    fc = "vec" if cls == "mixed" else cls
+
+    def un(name, f, c=fc):
+        return S(UNARY[name][2](H, f, c, dim))
+
+    def bi(name, f, g):
+        return S(BINARY[name][2](H, f, g, fc, dim))
+
+    facet = a["where"] == "facet"
+
+    def kpart(w):
+        out = 1.0 + un(e["k"], w["k"]) if "k" in e else 1.0
+        return out * _geometry_factor(H, e["g"], w, dim, facet) if "g" in e else out
+
+    def gpart(w):
+        return _geometry_factor(H, e["g"], w, dim, facet) if "g" in e else 1.0
+
+    if what == "bil-unary" and cls == "mixed":
+        def form(u, p, v, q, w):
+            return un(e["u"], u) * un(e["v"], v) * kpart(w) + un(e["p"], p, "scalar") * un(e["v"], v) \
+                + un(e["u"], u) * un(e["q"], q, "scalar")
+    elif what == "bil-unary":
+        def form(u, v, w):
+            return un(e["u"], u) * un(e["v"], v) * kpart(w)
+    elif what == "bil-binary" and cls == "mixed":
+        def form(u, p, v, q, w):
+            return (bi(e["b"], u, v) + (bi(e["bk"], u, w["k"]) * un(e["v"], v) if "bk" in e else 0.0)) * gpart(w) + p * q
+    elif what == "bil-binary":
+        def form(u, v, w):
+            return (bi(e["b"], u, v) + (bi(e["bk"], u, w["k"]) * un(e["v"], v) if "bk" in e else 0.0)) * gpart(w)
+    elif what == "lin" and cls == "mixed":
+        def form(v, q, w):
+            return un(e["v"], v) * kpart(w) + bi(e["bk"], w["k"], v) + q * w["kp"]
+    elif what == "lin":
+        def form(v, w):
+            return un(e["v"], v) * kpart(w) + bi(e["bk"], w["k"], v)
+    elif what == "fun":
+        def form(w):       # (a positive integrand: no cancellation in the sum over the cells)
+            return 1.0 + un(e["k"], w["k"]) ** 2 + bi(e["bk"], w["k"], w["k"]) ** 2 + gpart(w) ** 2
+    elif what == "coef-F" and e["form"] == "bil":
+        def form(u, v, w):
+            return S(H.inv(w["F"])) * H.dot(u, v) + H.dot(H.mul(H.inv(w["F"]), u), v) * H.det(w["F"])
+    elif what == "coef-F":
+        def form(v, w):
+            return H.dot(H.mul(H.inv(w["F"]), w["k"]), v) + H.det(w["F"]) * S(H.mul(H.transpose(w["F"]), v))
+    elif what == "jump":
+        def form(u, v, w):
+            ju, jv = H.jump(w, u, v)
+            gu, gv = H.jump(w, H.grad(u), H.grad(v))
+            return S(ju) * S(jv) + w.h * S(gu) * S(gv)
+    else:
+        raise ValueError(what)
+    return form
+
+
+def _helpers_used(a):
+    """{(helper, operand kind)} a step applies (static: read off the step arguments)."""
+    cls, e, what = a["cls"], a["expr"], a["what"]
+    fc = "vec" if cls == "mixed" else cls
+    out = set()
+    for key, tab, tgt, c in (("u", UNARY, "basis-function", fc), ("v", UNARY, "basis-function", fc),
+                             ("p", UNARY, "basis-function", "scalar"), ("q", UNARY, "basis-function", "scalar"),
+                             ("k", UNARY, "coefficient", fc), ("b", BINARY, "basis-function", fc),
+                             ("bk", BINARY, "coefficient", fc)):
+        if key in e:
+            out |= {(h, tgt) for h in tab[e[key]][1](c)}
+    if "g" in e:
+        out |= {(h, "default-parameter") for h in {"mul": ("mul", "prod")}.get(e["g"], (e["g"],))}
+    if what == "coef-F":
+        out |= {(h, "coefficient") for h in ("inv", "det", "mul", "dot") + (("transpose",) if e["form"] == "lin" else ())}
+    if what == "jump":
+        out |= {("jump", "basis-function"), ("grad", "basis-function")}
+    if what == "model":
+        out |= {(h, "basis-function") for h in MODEL_HELPERS[e["model"]]}
+        if e["model"] in ("vrot",):
+            out.add(("curl", "coefficient"))
+    return out
+
+
+def run_hform(env, a):
+    import skfem
+    cls, what, e = a["cls"], a["what"], a["expr"]
+    m = env.mesh(a["mid"])
+    c = Caller(env)
+    if what == "jump":
+        b0, b1 = env.ibasis(a["mid"], a["ename"], 0), env.ibasis(a["mid"], a["ename"], 1)
+        res = [skfem.asm(skfem.BilinearForm(_helper_integrand(a)), [b0, b1], [b0, b1])]
+        b = b0
+    else:
+        b = _hbasis(env, a)
+    kw = {}
+    if what != "jump" and _needs_coef(a):
+        k = env.coef(a)
+        if isinstance(k, tuple):
+            kw["k"], kw["kp"] = k[0], k[1]
+        else:
+            kw["k"] = k
+    if what == "interp":
+        y = c("y", np.random.default_rng(200 + a["yseed"]).integers(-8, 9, size=b.N) / 8)
+        f = b.interpolate(y)
+        res = []
+        for fld in (f if isinstance(f, tuple) else (f,)):
+            res += [np.array(x) for x in fld.astuple if x is not None]
+    elif what == "model":
+        from skfem.models import elasticity, general, poisson
+        name = e["model"]
+        if name == "linear_elasticity":
+            form = env.form("model:linear_elasticity")
+        else:
+            form = getattr(poisson, name, None) or getattr(general, name)
+        if name in ("rot", "vrot"):
+            kw = {"w": kw["k"]}
+        res = [form.assemble(b, **kw)]
+    elif what == "coef-F":
+        # a matrix field the caller owns, handed over as a plain array (the library wraps it without a copy):
+        # c*I + G with c = 1 + |G|^2 > |G| is invertible whatever G is
+        Gk = np.array(kw["k"].grad)
+        d = Gk.shape[0]
+        cc = 1.0 + np.einsum("ij...,ij...", Gk, Gk)
+        kw["F"] = c("F", Gk + np.array([[cc if i == j else 0.0 * cc for j in range(d)] for i in range(d)]))
+        F_ = skfem.BilinearForm if e["form"] == "bil" else skfem.LinearForm
+        res = [F_(_helper_integrand(a)).assemble(b, **kw)]
+    elif what != "jump":
+        F_ = {"bil-unary": skfem.BilinearForm, "bil-binary": skfem.BilinearForm, "lin": skfem.LinearForm,
+              "fun": skfem.Functional}[what]
+        form = F_(_helper_integrand(a))
+        res = [form.elemental(b, **kw)] if what == "fun" else [form.assemble(b, **kw)]
+    key = ("hbasis", a["where"] if what != "jump" else "interior", a["mid"], a["ename"])
+    warm = env.note(key, a["sig"] + (f":y{a['yseed']}" if what == "interp" else ""))
+    earlier_forms = any(not z.startswith("interp") for z in env.used[key] if z != a["sig"])
+    flags = {"__mutated__": c.mutated(), "hform:" + what: True, "hform:class:" + cls: True,
+             "hform:on-facet-basis": a["where"] == "facet" and what != "jump",
+             "warm:other-helper-form-after-helper-form-on-the-same-basis": what != "interp" and warm and earlier_forms,
+             "warm:interpolate-after-helper-form-on-the-same-basis": what == "interp" and earlier_forms,
+             "operand:coefficient-field-arrays": bool(kw), "caller-array:coefficient-matrix-field": what == "coef-F"}
+    for h, tgt in _helpers_used(a):
+        flags[f"helper:{h}:{tgt}"] = True
+    return res, [m], flags, ("hform:" + what + ":" + cls, "basis-arrays+coefficient-arrays", warm)
+
+
 PRE = {"dofs": pre_basis_use, "project": pre_basis_use, "form": pre_form, "mapping": pre_mapping, "mapping-facet": pre_mapping, "asm": pre_basis_use,
-       "probe": pre_basis_use, "basis": pre_elem, "global": pre_elem, "lbasis": pre_elem, "facet-basis": pre_elem}
+       "probe": pre_basis_use, "basis": pre_elem, "global": pre_elem, "lbasis": pre_elem, "facet-basis": pre_elem,
+       "hform": pre_hform}
 
 OPS = [("derive", op_derive, run_derive, 2), ("dofs", op_dofs, run_dofs, 2), ("project", op_project, run_project, 1),
        ("form", op_form, run_form, 4), ("mapping-facet", op_mapping_facet, run_mapping_facet, 3),
@@ -1390,11 +1853,15 @@ OPS = [("derive", op_derive, run_derive, 2), ("dofs", op_dofs, run_dofs, 2), ("p
        ("basis", op_basis, run_basis, 3), ("global", op_global, run_global, 3), ("lbasis", op_lbasis, run_lbasis, 3),
        ("mapping", op_mapping, run_mapping, 4), ("finder", op_finder, run_finder, 1), ("asm", op_asm, run_asm, 3),
        ("probe", op_probe, run_probe, 2), ("solve", op_solve, run_solve, 3), ("eig", op_eig, run_eig, 1),
-       ("transform", op_transform, run_transform, 5), ("bc", op_bc, run_bc, 2)]
+       ("transform", op_transform, run_transform, 5), ("bc", op_bc, run_bc, 2),
+       # (weight 0 in the general programs: the helper forms have their own focused family)
+       ("hform", op_hform, run_hform, 0)]
 
 
 def classify(opname, args, detail, exc=None):
     """Explicit predicates for triaged mechanisms (see known_findings.json)."""
+    if opname == "hform":
+        return "hform:" + args["sig"]
     return f"{opname}:{args.get('ename', args.get('name', args.get('what', args.get('meth', ''))))}".split("(")[0]
 
 
@@ -1491,7 +1958,7 @@ def program(ctx, k, ops=None, nmesh=None, nsteps=None, tweak=None):
             else:
                 ctx.drop("fresh-process-reference-failed:" + name + ":" + str(out.get("error", ""))[:40])
         ch = changed(before, pre_objs) + [("local", nm) for nm in flags.pop("__mutated__", [])]
-        ctx.check("operands-unchanged", not ch, mech=f"operand-mutated:{name}:{args.get('what', '')}", op=name, args=args,
+        ctx.check("operands-unchanged", not ch, mech=f"operand-mutated:{name}:{args.get('sig', args.get('what', ''))}", op=name, args=args,
                   changed=[str(c) for c in ch[:6]], step=step)
         for fl, val in flags.items():
             if val:
@@ -1634,6 +2101,35 @@ def derived_programs(ctx, k):
     (second-order meshes touch Mesh.dofs), while the meshes they were derived from keep being used."""
     program(ctx, k, ops={"derive": 4, "transform": 4, "basis": 2, "asm": 2, "form": 2, "mapping": 2, "facet-basis": 1,
                          "finder": 1, "mapping-facet": 1}, nmesh=[2, 3][k % 2], nsteps=ctx.scale(26, 80))
+
+
+HELPER_PROGRAM_CLASSES = [["vec"], ["vec", "mixed"], ["global"], ["scalar", "vec"], ["hdiv", "hcurl"]]
+
+
+def helper_programs(ctx, k):
+    """Focused programs on forms written with skfem.helpers: the few pooled cell / facet / interior-facet bases of one
+    or two meshes (vector, mixed, H(div), H(curl), globally defined and scalar elements) are handed to generated
+    integrands that apply every helper to the stored trial / test functions and to coefficient fields the caller
+    keeps, interleaved with interpolate() and the library's model forms on the same bases.  Every step: operand
+    checksums around the call (basis, mapping, element, mesh, coefficient arrays) and comparison with a fresh replay
+    (for a sample: in a process that executed nothing else)."""
+    import inspect
+    import skfem.helpers as H
+    public = {n for n, f in vars(H).items() if inspect.isfunction(f) and f.__module__ == H.__name__ and not n.startswith("_")}
+    if public <= set(HELPER_TARGETS):
+        ctx.reached("helper-catalogue-covers-skfem.helpers")
+    else:
+        for n in sorted(public - set(HELPER_TARGETS)):
+            ctx.drop("helper-without-a-form-in-the-catalogue:" + n)
+    classes = HELPER_PROGRAM_CLASSES[k % len(HELPER_PROGRAM_CLASSES)]
+
+    def tweak(specs, rng):
+        specs.hform_classes = classes
+        kinds = set().union(*[set(HELPER_ELEMS[c]) for c in classes if c != "global"])
+        if kinds:
+            specs.meshes = {i: v for i, v in specs.meshes.items() if v.get("unit") or v["kind"] in kinds}
+    program(ctx, k, ops={"hform": 12, "form": 1, "asm": 1, "transform": 1}, nmesh=1 + (k // 2) % 2, nsteps=ctx.scale(24, 80),
+            tweak=tweak)
 
 
 # ------------------------------------------------------------------ retained objects
@@ -1790,10 +2286,12 @@ def composite_bases(ctx, k):
     if "product" not in seq[:2]:
         seq.insert(0, "product")
     for step, how in enumerate(seq):
-        before = snapshot([m, {"b1.element_dofs": np.asarray(b1.element_dofs), "b2.element_dofs": np.asarray(b2.element_dofs),
-                               "b1.dx": b1.dx, "b2.dx": b2.dx}])
-        keep = [m, {"b1.element_dofs": np.asarray(b1.element_dofs), "b2.element_dofs": np.asarray(b2.element_dofs),
-                    "b1.dx": b1.dx, "b2.dx": b2.dx}]
+        # every array the two component bases hold (tabulated basis functions with their derivatives, dx, X, W, DOF
+        # tables, mapping arrays) and the defining arrays of their element objects
+        keep = [m, {"b1.element_dofs": np.asarray(b1.element_dofs), "b2.element_dofs": np.asarray(b2.element_dofs)},
+                Held(deep_arrays(b1, "b1")), Held(deep_arrays(b2, "b2")),
+                Held(element_static_arrays(b1.elem)), Held(element_static_arrays(b2.elem))]
+        before = snapshot(keep)
         try:
             _, f1, f2 = build(Env(specs, pooled=False))
             ref = use(f1, f2, how)
@@ -1814,6 +2312,7 @@ def composite_bases(ctx, k):
         ctx.check("operands-unchanged", not ch, mech="operand-mutated:composite-basis-components", how=how,
                   changed=[str(c) for c in ch[:6]], elems=[n1, n2])
     ctx.reached("composite-basis-components-reused")
+    ctx.reached("operand:composite-component-basis-arrays")
     ctx.nontrivial("composite-basis", kind, n1, n2)
 
 
@@ -1909,6 +2408,7 @@ FAMILIES = [Family("programs", program, 100, 3200, budget={"quick": 80, "thoroug
             Family("facet-programs", facet_programs, 40, 800, budget={"quick": 30, "thorough": 600}),
             Family("derived-programs", derived_programs, 40, 800, budget={"quick": 30, "thorough": 600}),
             Family("buffer-programs", buffer_programs, 24, 480, budget={"quick": 20, "thorough": 400}),
+            Family("helper-programs", helper_programs, 20, 600, budget={"quick": 45, "thorough": 900}),
             Family("retained-basis", retained_basis, 48, 960, budget={"quick": 40, "thorough": 600}),
             Family("composite-bases", composite_bases, 16, 320, budget={"quick": 20, "thorough": 300}),
             Family("fresh-interpreter", fresh_interpreter, 4, 8, budget={"quick": 60, "thorough": 120})]
